@@ -74,6 +74,8 @@ class FakeZk:
         self.cut_after = None      # None = never cut
         self.budget = None         # None = unlimited; else Runaway is raised at that many writes
         self.log = []              # (kind, path) of every applied write
+        self.reads = 0             # number of reads served since `arm_read`
+        self.read_fault = None     # index of the read that fails once with a transient kazoo error
 
     # ---- harness side --------------------------------------------------------------------
     def clone(self):
@@ -94,6 +96,19 @@ class FakeZk:
         self.budget = budget
         self.transient = transient
         self.fired = False
+
+    def arm_read(self, index):
+        """Count reads from now; the read number `index` (0-based) fails ONCE with a transient kazoo error
+        (connection loss); None = no read fault."""
+        self.reads = 0
+        self.read_fault = index
+
+    def _read(self, kind, path):
+        if self.read_fault is not None and self.reads == self.read_fault:
+            self.read_fault = None
+            self.reads += 1
+            raise TransientError('%s %s' % (kind, path))
+        self.reads += 1
 
     def _write(self, kind, path):
         if self.cut_after is not None and self.writes >= self.cut_after:
@@ -128,6 +143,7 @@ class FakeZk:
         return 'servers'
 
     def get_children(self, path, watch=None, include_data=False):
+        self._read('get_children', path)
         node = self._find(path)
         if node is None:
             raise kazoo.exceptions.NoNodeError(path)
@@ -136,10 +152,12 @@ class FakeZk:
         return sorted(node.children, key=lambda n: hashlib.sha1((self.salt + '/' + n).encode()).digest())
 
     def exists(self, path, watch=None):
+        self._read('exists', path)
         node = self._find(path)
         return node.stat() if node is not None else None
 
     def get(self, path, watch=None):
+        self._read('get', path)
         node = self._find(path)
         if node is None:
             raise kazoo.exceptions.NoNodeError(path)
